@@ -402,3 +402,27 @@ func PerShard(total int) int {
 
 // Mine reports whether item i of an enumeration belongs to this shard.
 func Mine(i int) bool { return i%p.NShards == p.Shard }
+
+var raceSeen int64
+
+// RaceReport returns the part of the race detector's log written since the last call
+// ("" if none). The driver sets GORACE=log_path=<prefix> for checks built with -race.
+func RaceReport() string {
+	gr := os.Getenv("GORACE")
+	i := strings.Index(gr, "log_path=")
+	if i < 0 {
+		return ""
+	}
+	prefix := strings.Fields(gr[i+len("log_path="):])[0]
+	path := fmt.Sprintf("%s.%d", prefix, os.Getpid())
+	buf, err := os.ReadFile(path)
+	if err != nil || int64(len(buf)) <= raceSeen {
+		return ""
+	}
+	out := string(buf[raceSeen:])
+	raceSeen = int64(len(buf))
+	if len(out) > 6000 {
+		out = out[:6000] + "\n…"
+	}
+	return out
+}
